@@ -50,7 +50,10 @@ TOL = 1e-9
 #                       edge-sized direction vectors, so meshes with edge lengths <~ 1e-6 are reported 'parallel' -> AttributeError)
 #   reused_output     : interpolate_faces_to_vertices / average_corners_to_* called a second time into the same output attribute
 #                       accumulate instead of overwriting (area / angle / some uniform / sum modes), unlike interpolate_vertices_to_faces
-PENDING = {"circumcenter_tiny": True, "reused_output": True}
+#   recall_existing   : with mouette.config.display_duplicate_attribute_warning = True, create_attribute hands back the attribute that
+#                       already carries the name, and degree / angle_defects / cotan_weights / face_area (>4 sides) accumulate on top of
+#                       its old values (degree doubles on a second degree(mesh)).  While off, the switch is left at the library default.
+PENDING = {"circumcenter_tiny": True, "reused_output": True, "recall_existing": False}
 for _k in os.environ.get("C07_PENDING", "").split(","):
     if _k.strip() in PENDING:
         PENDING[_k.strip()] = True
@@ -110,20 +113,41 @@ def int_form_of(V, seed):
     return (None, "numpy-int", "python-int")[seed % 3]
 
 
-def build_mesh(V, F=None, C=None, int_form=None):
+IDX_FORMS = ["list", "list", "tuple", "int64", "int32", "int16", "uint8", "uint32"]
+
+
+def idx_form_of(seed, nV):
+    """container of every face / cell row: python list, tuple, or a numpy row of a drawn integer dtype (narrow ones when ids fit)"""
+    f = IDX_FORMS[(seed // 3) % len(IDX_FORMS)]
+    if f == "uint8" and nV > 255:
+        f = "int32"
+    return f
+
+
+def idx_rows(rows, form):
+    if form == "list":
+        return [list(r) for r in rows]
+    if form == "tuple":
+        return [tuple(r) for r in rows]
+    return [np.array(r, dtype=getattr(np, form)) for r in rows]
+
+
+def build_mesh(V, F=None, C=None, int_form=None, idx_form="list", float32=False):
     import mouette as M
-    if int_form is None:
-        return surface_from(V.tolist(), F) if C is None else volume_from(V.tolist(), C)
     from mouette.mesh.mesh_data import RawMeshData
     raw = RawMeshData()
-    if int_form == "numpy-int":
+    if float32:
+        raw.vertices += [np.array(v, dtype=np.float32) for v in V]
+    elif int_form == "numpy-int":
         raw.vertices += [np.array([int(x) for x in v], dtype=np.int64) for v in V]
-    else:
+    elif int_form == "python-int":
         raw.vertices += [[int(x) for x in v] for v in V]
+    else:
+        raw.vertices += [list(map(float, v)) for v in V]
     if C is None:
-        raw.faces += [list(f) for f in F]
+        raw.faces += idx_rows(F, idx_form)
         return M.mesh.SurfaceMesh(raw)
-    raw.cells += [list(c) for c in C]
+    raw.cells += idx_rows(C, idx_form)
     return M.mesh.VolumeMesh(raw)
 
 
@@ -146,17 +170,35 @@ def circumcenter_in_reach(ctx, V, tris, where):
     return False
 
 
-def coord_scale(V):
-    return float(max(1e-300, np.max(np.abs(V))))
+class Mag(float):
+    """coordinate magnitude L of a mesh, carrying cond = L / (shortest edge): how many digits are lost when edge vectors are formed"""
+    cond = 1.0
+
+
+# tolerance constants: double precision; float32 coordinates (the library then computes in single precision)
+PREC64 = {"rel": TOL, "cond": 2e-14, "L": 1e-12}
+PREC32 = {"rel": 1e-4, "cond": 2e-6, "L": 1e-5}
+PREC = dict(PREC64)
+
+
+def coord_scale(V, E=None):
+    L = Mag(max(1e-300, np.max(np.abs(V))))
+    if E:
+        h = float(np.min(R.edge_lengths(V, E)))
+        L.cond = float(L) / h if h > 0 else float("inf")
+    return L
 
 
 def tol_of(kind, ref, L):
-    """absolute tolerance for a quantity of the given kind whose reference values are `ref` on a mesh with coordinate magnitude L"""
+    """absolute tolerance for a quantity of the given kind with reference values `ref` on a mesh of coordinate magnitude L.
+    Homogeneous quantities of degree p are products of p edge-sized factors each known to eps*L: rel*m + c*L*m^((p-1)/p).
+    Dimensionless ones (angles, cotangents, unit vectors) lose log10(L/h) digits: rel*max(1,m) + c*cond*max(1,m)^2."""
     m = float(np.max(np.abs(ref))) if np.size(ref) else 0.0
     p = POWER[kind]
     if p == 0:
-        return TOL * max(1.0, m)
-    return TOL * m + 1e-12 * L ** p
+        mm = max(1.0, m)
+        return PREC["rel"] * mm + PREC["cond"] * getattr(L, "cond", 1.0) * mm * mm
+    return PREC["rel"] * m + PREC["L"] * float(L) * m ** ((p - 1.0) / p)
 
 
 def fmt(x):
@@ -320,7 +362,8 @@ def mean_calls(ctx, mesh, fname, qname, per_elem_ref, kind, L, rnd, where, full,
     N = len(per_elem_ref)
     ns = [None]
     if full:
-        ns += sorted({1, max(1, N // 2), N, N + 1 + rnd.randrange(5)})
+        # below, at and above the element count; far above it (the bound is 'how many at most'); a numpy integer scalar
+        ns += sorted({1, max(1, N // 2), N, N + 1 + rnd.randrange(5)}) + [(10 ** 6, 2 ** 53 + 1, 256 * N)[rnd.randrange(3)], np.int64(max(1, N - 1))]
     else:
         ns += [1 + rnd.randrange(N + 4)]
     res = []
@@ -347,11 +390,11 @@ def mean_calls(ctx, mesh, fname, qname, per_elem_ref, kind, L, rnd, where, full,
     return res
 
 
-def evaluate_surface(ctx, V, F, rnd, where, full, int_form=None):
+def evaluate_surface(ctx, V, F, rnd, where, full, int_form=None, idx_form="list", float32=False):
     """build a fresh SurfaceMesh from (V, F), run everything, compare with the reference. Returns (values, mesh edges) or None"""
     import mouette as M
     A = M.attributes
-    mesh = build_mesh(V, F=F, int_form=int_form)
+    mesh = build_mesh(V, F=F, int_form=int_form, idx_form=idx_form, float32=float32)
     medges = [tuple(ints(e)) for e in mesh.edges]
     if not ctx.check(len(set(medges)) == len(medges) and set(medges) == R.edges_of_faces(F), "edges",
                      f"{where}: mesh.edges is not the set of face sides (low index first)"):
@@ -361,7 +404,7 @@ def evaluate_surface(ctx, V, F, rnd, where, full, int_form=None):
     nV, nE, nF = len(V), len(medges), len(F)
     nC = sum(len(f) for f in F)
     tri = all(len(f) == 3 for f in F)
-    L = coord_scale(V)
+    L = coord_scale(V, medges)
     sizes = {"V": nV, "E": nE, "C": nC, "F": nF}
     ref = {
         "degree": R.vertex_degrees(nV, medges), "length": R.edge_lengths(V, medges), "middle": R.edge_midpoints(V, medges),
@@ -460,6 +503,7 @@ def evaluate_surface(ctx, V, F, rnd, where, full, int_form=None):
 
     out = run_attribute_calls(ctx, mesh, SURF_FUNCS, ref, masks, sizes, L, rnd, where, full, extra)
     out["_masks"] = masks
+    out["_L"] = L
     mesh_unchanged(ctx, mesh, V, where, F=F)
     return out, medges, ref
 
@@ -520,6 +564,7 @@ def identities_surface(ctx, V, F, out, ref, where):
 
 
 def metamorphic(ctx, out0, outk, var, Lk, where):
+    Lk = outk.get("_L", Lk)
     for q, base in out0.items():
         if q.startswith("_") or q not in outk:
             continue
@@ -539,7 +584,14 @@ def metamorphic(ctx, out0, outk, var, Lk, where):
 @st.composite
 def motion(draw):
     q = draw(st.tuples(*[st.integers(-9, 9)] * 4).filter(lambda t: any(t)))
-    tr = [draw(st.floats(-20, 20, allow_nan=False, width=64)) for _ in range(3)]
+    if draw(st.integers(0, 2)) == 0:
+        # far from the origin: 1e3 .. 1e7 mesh sizes away (georeferenced data); translation invariant quantities must survive
+        mag = draw(st.sampled_from([1e3, 3e3, 1e4, 1e5, 1e6, 1e7]))
+        tr = [mag * draw(st.integers(-4, 4)) / 4.0 + draw(st.floats(-20, 20, allow_nan=False)) for _ in range(3)]
+        if max(abs(x) for x in tr) < mag / 4:
+            tr[0] += mag
+    else:
+        tr = [draw(st.floats(-20, 20, allow_nan=False, width=64)) for _ in range(3)]
     # a third moderate, a third tiny (1e-6 .. 1e-3), a third huge (1e3 .. 1e6); log-uniform or round powers of ten
     s = draw(st.one_of(st.sampled_from([0.5, 2.0, 0.25, 4.0, 1.0 / 32, 32.0, 3.0, 0.1, 10.0]),
                        st.floats(1.0 / 32, 32.0, allow_nan=False),
@@ -547,7 +599,8 @@ def motion(draw):
                        st.integers(-60, -30).map(lambda k: 10.0 ** (k / 10.0)),
                        st.sampled_from([1e3, 1e4, 1e5, 1e6]),
                        st.integers(30, 60).map(lambda k: 10.0 ** (k / 10.0))))
-    return {"quat": list(q), "trans": tr, "scale": s}
+    # library-wide switches under which the unchanged library satisfies the oracles (see PENDING for the duplicate-name switch)
+    return {"quat": list(q), "trans": tr, "scale": s, "sort_nb": draw(st.booleans()), "dup_switch": draw(st.booleans())}
 
 
 def surface_relabelling(draw, V, F):
@@ -721,6 +774,26 @@ def check_generated_surface(case):
     return V, F
 
 
+def apply_config(case, ctx):
+    """per-case library switches (the runner saves / restores mouette.config around every case)"""
+    import mouette as M
+    M.config.sort_neighborhoods = bool(case.get("sort_nb", True))
+    ctx.label("sort_neighborhoods=" + str(M.config.sort_neighborhoods))
+    if PENDING["recall_existing"]:
+        M.config.display_duplicate_attribute_warning = bool(case.get("dup_switch", False))
+        ctx.label("display_duplicate_attribute_warning=" + str(M.config.display_duplicate_attribute_warning))
+
+
+def common_labels(case, ctx, V, s, tr):
+    ctx.label("scale=tiny(<=1e-3)" if s <= 1e-3 else "scale=huge(>=1e3)" if s >= 1e3 else "scale=moderate")
+    ctx.label("offset=far(>=1e3 sizes)" if float(np.max(np.abs(tr))) >= 250 else "offset=near")
+    iform = int_form_of(V, case["seed"])
+    ctx.label("coords=" + (iform or "float"))
+    xform = idx_form_of(case["seed"], len(V))
+    ctx.label("rows=" + xform)
+    return iform, xform
+
+
 def motion_of(case):
     Rm = R.quat_to_matrix(case["quat"])
     t = np.array(case["trans"], dtype=float)
@@ -739,11 +812,11 @@ def fn_surface(case, ctx):
     ctx.nontrivial((not ident) and ((not bv and len(F) >= 4) or (bv and len(bv) < len(V))))
     ctx.label("border+interior" if (bv and len(bv) < len(V)) else "closed" if not bv else "border-only")
     rnd = random.Random(case["seed"])
-    ctx.label("scale=tiny(<=1e-3)" if s <= 1e-3 else "scale=huge(>=1e3)" if s >= 1e3 else "scale=moderate")
-    iform = int_form_of(V, case["seed"])
-    ctx.label("coords=" + (iform or "float"))
+    apply_config(case, ctx)
+    iform, xform = common_labels(case, ctx, V, s, tr)
+    how = f" (rows: {xform}" + (f", {iform} coordinates)" if iform else ")")
 
-    r0 = evaluate_surface(ctx, V, F, rnd, "base mesh" + (f" ({iform} coordinates)" if iform else ""), True, iform)
+    r0 = evaluate_surface(ctx, V, F, rnd, "base mesh" + how, True, iform, xform)
     if r0 is None:
         return
     out0, medges0, refv = r0
@@ -751,12 +824,12 @@ def fn_surface(case, ctx):
 
     # rigid motion
     V1 = V @ Rm.T + tr
-    r1 = evaluate_surface(ctx, V1, F, rnd, "rigidly moved mesh", False)
+    r1 = evaluate_surface(ctx, V1, F, rnd, "rigidly moved mesh" + f" (rows: {xform}, translation {tr.tolist()})", False, None, xform)
     if r1 is not None:
         metamorphic(ctx, out0, r1[0], Variant("rigid", Rm, tr), coord_scale(V1), "rigid motion")
     # scaling
     V2 = s * V
-    r2 = evaluate_surface(ctx, V2, F, rnd, f"mesh scaled by {s!r}", False)
+    r2 = evaluate_surface(ctx, V2, F, rnd, f"mesh scaled by {s!r} (rows: {xform})", False, None, xform)
     if r2 is not None:
         metamorphic(ctx, out0, r2[0], Variant("scale", s=s), coord_scale(V2), f"scaling by {s!r}")
     # renumbering: vertex i -> vperm[i]; new face k = old face fperm[k], rotated by frot[k]
@@ -769,7 +842,7 @@ def fn_surface(case, ctx):
         g = [vperm[v] for v in F[fperm[k]]]
         r = frot[k] % len(g)
         F3.append(g[r:] + g[:r])
-    r3 = evaluate_surface(ctx, V3, F3, rnd, "renumbered mesh" + (f" ({iform} coordinates)" if iform else ""), False, iform)
+    r3 = evaluate_surface(ctx, V3, F3, rnd, "renumbered mesh" + how, False, iform, xform)
     if r3 is not None:
         inv = [0] * nV
         for i, j in enumerate(vperm):
@@ -784,6 +857,17 @@ def fn_surface(case, ctx):
         src = {"V": np.array(inv), "F": np.array(fperm), "C": np.array(srcC), "E": np.array(srcE)}
         metamorphic(ctx, out0, r3[0], Variant("renumber", src=src), coord_scale(V3), "renumbering")
         identities_surface(ctx, V3, F3, r3[0], r3[2], "renumbered mesh")
+    # single precision coordinates: the library computes in the precision it is given; compared with the reference evaluated on
+    # the rounded coordinates, with single precision tolerances (values only, no metamorphic relation)
+    if case["seed"] % 4 == 0:
+        V4 = V.astype(np.float32).astype(float)
+        if poly_ok(V4, F, strict=False):
+            ctx.label("float32-coordinates")
+            PREC.update(PREC32)
+            try:
+                evaluate_surface(ctx, V4, F, rnd, f"mesh given with numpy float32 coordinates (rows: {xform})", False, None, xform, True)
+            finally:
+                PREC.update(PREC64)
 
 
 PERMS4 = None
@@ -797,10 +881,10 @@ def perms4():
     return PERMS4
 
 
-def evaluate_tets(ctx, V, C, rnd, where, full, int_form=None):
+def evaluate_tets(ctx, V, C, rnd, where, full, int_form=None, idx_form="list", float32=False):
     import mouette as M
     A = M.attributes
-    mesh = build_mesh(V, C=C, int_form=int_form)
+    mesh = build_mesh(V, C=C, int_form=int_form, idx_form=idx_form, float32=float32)
     medges = [tuple(ints(e)) for e in mesh.edges]
     if not ctx.check(len(set(medges)) == len(medges) and set(medges) == R.edges_of_cells(C), "edges",
                      f"{where}: mesh.edges is not the set of cell edges (low index first)"):
@@ -812,7 +896,7 @@ def evaluate_tets(ctx, V, C, rnd, where, full, int_form=None):
         return None
     if not ctx.check([ints(c) for c in mesh.cells] == [list(c) for c in C], "cells", f"{where}: mesh.cells differs from the input"):
         return None
-    L = coord_scale(V)
+    L = coord_scale(V, medges)
     sizes = {"V": len(V), "E": len(medges), "F": len(mfaces), "K": len(C)}
     ref = {"degree": R.vertex_degrees(len(V), medges), "length": R.edge_lengths(V, medges), "middle": R.edge_midpoints(V, medges),
            "area": R.face_areas(V, mfaces), "fbary": R.face_barycenters(V, mfaces),
@@ -850,6 +934,7 @@ def evaluate_tets(ctx, V, C, rnd, where, full, int_form=None):
     extra.append(("glob", v2f))
     out = run_attribute_calls(ctx, mesh, TET_FUNCS, ref, {}, sizes, L, rnd, where, full, extra)
     out["_masks"] = {}
+    out["_L"] = L
     if "volume" in out and "mean_vol" in out:
         ctx.check(abs(float(out["mean_vol"]) * len(C) - float(np.sum(out["volume"]))) <= tol_of("vol", out["volume"], L) * len(C),
                   "identity:mean-volume", f"{where}: mean_cell_volume * #cells != sum of cell_volume")
@@ -867,19 +952,19 @@ def fn_tets(case, ctx):
     Rm, tr, s, ident = motion_of(case)
     ctx.nontrivial((not ident) and len(C) >= 2)
     rnd = random.Random(case["seed"])
-    ctx.label("scale=tiny(<=1e-3)" if s <= 1e-3 else "scale=huge(>=1e3)" if s >= 1e3 else "scale=moderate")
-    iform = int_form_of(V, case["seed"])
-    ctx.label("coords=" + (iform or "float"))
-    r0 = evaluate_tets(ctx, V, C, rnd, "base mesh" + (f" ({iform} coordinates)" if iform else ""), True, iform)
+    apply_config(case, ctx)
+    iform, xform = common_labels(case, ctx, V, s, tr)
+    how = f" (rows: {xform}" + (f", {iform} coordinates)" if iform else ")")
+    r0 = evaluate_tets(ctx, V, C, rnd, "base mesh" + how, True, iform, xform)
     if r0 is None:
         return
     out0, medges0, mfaces0 = r0
     V1 = V @ Rm.T + tr
-    r1 = evaluate_tets(ctx, V1, C, rnd, "rigidly moved mesh", False)
+    r1 = evaluate_tets(ctx, V1, C, rnd, f"rigidly moved mesh (rows: {xform}, translation {tr.tolist()})", False, None, xform)
     if r1 is not None:
         metamorphic(ctx, out0, r1[0], Variant("rigid", Rm, tr), coord_scale(V1), "rigid motion")
     V2 = s * V
-    r2 = evaluate_tets(ctx, V2, C, rnd, f"mesh scaled by {s!r}", False)
+    r2 = evaluate_tets(ctx, V2, C, rnd, f"mesh scaled by {s!r} (rows: {xform})", False, None, xform)
     if r2 is not None:
         metamorphic(ctx, out0, r2[0], Variant("scale", s=s), coord_scale(V2), f"scaling by {s!r}")
     vperm, cperm, cvperm = case["vperm"], case["cperm"], case["cvperm"]
@@ -890,7 +975,7 @@ def fn_tets(case, ctx):
         g = [vperm[v] for v in C[cperm[k]]]
         p = perms4()[cvperm[k] % 24]
         C3.append([g[j] for j in p])
-    r3 = evaluate_tets(ctx, V3, C3, rnd, "renumbered mesh" + (f" ({iform} coordinates)" if iform else ""), False, iform)
+    r3 = evaluate_tets(ctx, V3, C3, rnd, "renumbered mesh" + how, False, iform, xform)
     if r3 is not None:
         inv = [0] * len(V)
         for i, j in enumerate(vperm):
@@ -900,6 +985,15 @@ def fn_tets(case, ctx):
         src = {"V": np.array(inv), "K": np.array(cperm), "E": np.array([e0[key(inv[a], inv[b])] for (a, b) in r3[1]]),
                "F": np.array([f0[key(*[inv[v] for v in f])] for f in r3[2]])}
         metamorphic(ctx, out0, r3[0], Variant("renumber", src=src), coord_scale(V3), "renumbering")
+    if case["seed"] % 4 == 0:
+        V4 = V.astype(np.float32).astype(float)
+        if GT.valid(V4.tolist(), C):
+            ctx.label("float32-coordinates")
+            PREC.update(PREC32)
+            try:
+                evaluate_tets(ctx, V4, C, rnd, f"mesh given with numpy float32 coordinates (rows: {xform})", False, None, xform, True)
+            finally:
+                PREC.update(PREC64)
 
 
 # --------------------------------------------------------------------------------------------- interpolation
@@ -915,7 +1009,10 @@ def fn_interp(case, ctx):
     sc = float(case.get("scale", 1.0))
     V = sc * V          # the weights (areas, angles) must be insensitive to the absolute size of the mesh
     ctx.label("scale=tiny(<=1e-3)" if sc <= 1e-3 else "scale=huge(>=1e3)" if sc >= 1e3 else "scale=moderate")
-    mesh = surface_from(V.tolist(), F)
+    M.config.sort_neighborhoods = (case["seed"] % 2 == 0)
+    xform = idx_form_of(case["seed"], len(V))
+    ctx.label("rows=" + xform)
+    mesh = build_mesh(V, F=F, idx_form=xform)
     if [ints(f) for f in mesh.faces] != [list(f) for f in F]:
         ctx.fail("faces", "mesh.faces differs from the input face list")
         return
@@ -950,8 +1047,12 @@ def fn_interp(case, ctx):
                 uid += 1
                 din = rnd.randrange(2) == 0
                 by_default = (what == "const" and dim == 1 and not din and rnd.randrange(2) == 0)
+                # values handed over as numpy float32 scalars (a narrow dtype the attribute accepts as 'float')
+                f32 = (what == "const" and dim == 1 and not by_default and rnd.randrange(3) == 0)
                 if what == "const":
                     cv = float(case["const"]) if dim == 1 else np.array(case["cvec"], dtype=float)
+                    if f32:
+                        cv = float(np.float32(cv))
                     x = np.array([cv] * nsrc, dtype=float)
                 else:
                     x = nrnd.uniform(-1, 1, (nsrc,) if dim == 1 else (nsrc, 3))
@@ -961,16 +1062,32 @@ def fn_interp(case, ctx):
                 else:
                     ain = csrc.create_attribute(f"c07_in_{uid}", float, dim, dense=din)
                     for i in range(nsrc):
-                        ain[i] = float(x[i]) if dim == 1 else x[i]
+                        ain[i] = (np.float32(x[i]) if f32 else float(x[i])) if dim == 1 else x[i]
                 ws = list(weights)
                 rnd.shuffle(ws)
-                for w in ws:
+                if ws[0] is not None and rnd.randrange(2) == 0:
+                    # (after a call that raised) an unknown mode must be refused; the calls that follow must be unaffected
+                    bad_out = cdst.create_attribute(f"c07_out_{uid}_bad", float, dim, dense=True)
+                    try:
+                        f(mesh, ain, bad_out, "c07-no-such-weight")
+                    except Exception:
+                        ctx.n_assert += 1
+                    else:
+                        ctx.fail("bad-weight:" + fname, f"{fname}: unknown weight mode accepted (documented to raise)")
+                for w0 in ws:
+                    # the functions lower-case their `weight` argument: any capitalisation of a mode is the same mode
+                    w = w0
+                    if w0 is not None:
+                        w = (w0, w0, w0.capitalize(), w0.upper(), w0[0] + w0[1:].upper())[rnd.randrange(5)]
+                        if w != w0:
+                            ctx.label("weight-spelling=non-lower-case")
                     dout = rnd.randrange(2) == 0
                     aout = cdst.create_attribute(f"c07_out_{uid}_{w}", float, dim, dense=dout)
                     desc = (f"{fname}(mesh, <{what} {'scalar' if dim == 1 else 'vector'} attribute, {'dense' if din else 'sparse'}"
                             f"{' via default value' if by_default else ''}>, <fresh {'dense' if dout else 'sparse'} output>"
-                            + (f", weight={w!r})" if w else ")") + f" [weights so far on this input: {ws[:ws.index(w)]}]")
-                    sig = fname + (":" + w if w else "")
+                            + (f", weight={w!r})" if w else ")") + (" [values given as numpy.float32]" if f32 else "")
+                            + f" [weights so far on this input: {ws[:ws.index(w0)]}]")
+                    sig = fname + (":" + w0 if w0 else "")
                     ok, r = (ctx.call(sig, f, mesh, ain, aout, w) if w else ctx.call(sig, f, mesh, ain, aout))
                     if not ok:
                         continue
@@ -979,14 +1096,14 @@ def fn_interp(case, ctx):
                         continue
                     if what == "const":
                         exp = np.array([cv] * ndst, dtype=float)
-                        if w == "sum":
+                        if w0 == "sum":
                             exp = exp * (mult if dim == 1 else mult[:, None])
                         m = float(np.max(np.abs(exp)))
                         i, g, e, d = worst(vals, exp)
-                        ctx.check(d <= 1e-10 * max(m, 1e-300), "const:" + sig,
-                                  f"{desc}: element {i} is {fmt(g)}, expected {fmt(e)}" + (" (count x constant)" if w == "sum" else " (the constant)"))
+                        ctx.check(d <= (1e-5 if f32 else 1e-10) * max(m, 1e-300), "const:" + sig,
+                                  f"{desc}: element {i} is {fmt(g)}, expected {fmt(e)}" + (" (count x constant)" if w0 == "sum" else " (the constant)"))
                     else:
-                        exp = reff(x, w)
+                        exp = reff(x, w0)
                         i, g, e, d = worst(vals, exp)
                         ctx.check(d <= 1e-9 * max(1.0, float(np.max(np.abs(exp)))), "ref:" + sig,
                                   f"{desc}: element {i} is {fmt(g)}, the documented weighted mean gives {fmt(e)}")
@@ -997,7 +1114,7 @@ def fn_interp(case, ctx):
                             v2 = read_attr(ctx, sig, r2, ndst, dim, desc + " [second call, same output attribute]")
                             if v2 is not None:
                                 i, g, e, d = worst(v2, vals)
-                                ctx.check(d <= 1e-10 * max(1.0, float(np.max(np.abs(vals)))), "reused-output:" + sig,
+                                ctx.check(d <= (1e-5 if f32 else 1e-10) * max(1.0, float(np.max(np.abs(vals)))), "reused-output:" + sig,
                                           f"{desc}: called a second time into the same output attribute, element {i} becomes {fmt(g)} (first call: {fmt(e)})")
                 # the input must not be modified by any of the calls
                 back = read_attr(ctx, fname, ain, nsrc, dim, f"{fname}: input attribute after weights {ws}")
